@@ -100,7 +100,7 @@ func (w *psWalker) scan(e ast.Expr) {
 	case *ast.TypeAssertExpr:
 		w.scan(x.X)
 		if x.Type != nil {
-			w.emit("assert", psExpr(x.X), psExpr(x), "v_dyn_"+strings.Trim(psSan.ReplaceAllString(psExpr(x.X)+"_is_"+psExpr(x.Type), "_"), "_")+" = 1")
+			w.emit("assert", psExpr(x.X), psExpr(x), "v_dyn_"+strings.Trim(psSan.ReplaceAllString(w.canonExpr(x.X)+"_is_"+psExpr(x.Type), "_"), "_")+" = 1")
 		}
 	case *ast.CompositeLit:
 		for _, el := range x.Elts {
@@ -115,6 +115,23 @@ func (w *psWalker) scan(e ast.Expr) {
 	case *ast.CallExpr:
 		w.scanCall(x)
 	}
+}
+
+// canonExpr renders an expression with the canonical names of locals (see canonKey).
+func (w *psWalker) canonExpr(e ast.Expr) string {
+	switch x := e.(type) {
+	case *ast.Ident:
+		return w.canonKey(x.Name)
+	case *ast.SelectorExpr:
+		return w.canonExpr(x.X) + "." + x.Sel.Name
+	case *ast.CallExpr:
+		return w.canonExpr(x.Fun)
+	case *ast.ParenExpr:
+		return w.canonExpr(x.X)
+	case *ast.StarExpr:
+		return w.canonExpr(x.X)
+	}
+	return psExpr(e)
 }
 
 func isNumeral(s string) bool {
@@ -635,7 +652,7 @@ func (w *psWalker) stmt(s ast.Stmt) (term bool) {
 		}
 		w.join(base, before, brs, true)
 		if t1 && x.Else == nil {
-			if as, ok := x.Init.(*ast.AssignStmt); ok && len(as.Rhs) == 1 && psExpr(x.Cond) == "err != nil" {
+			if as, ok := x.Init.(*ast.AssignStmt); ok && len(as.Rhs) == 1 && len(as.Lhs) == 1 && psExpr(x.Cond) == psExpr(as.Lhs[0])+" != nil" {
 				if c, ok := as.Rhs[0].(*ast.CallExpr); ok {
 					if ct, ok := psContracts[w.calleeKey(c)]; ok && ct.okFact != "" {
 						w.add(w.instantiate(ct.okFact, w.sh.p.funcs[w.calleeKey(c)], c), "contract")
